@@ -174,6 +174,59 @@ def results_equal(r1, r2):
             and dict(r1.vdim_mapping) == dict(r2.vdim_mapping))
 
 
+DERIVATIONS = ("laplace", "diff", "neg", "add0", "mul", "rot", "pad", "abs")
+RELABELS = ("vdims_perm", "vdims_new", "mapping_set")
+
+
+def derive(f, how, dims):
+    if how == "laplace":
+        return f.laplace
+    if how == "diff":
+        return f.diff(dims[0])
+    if how == "neg":
+        return -f
+    if how == "add0":
+        return f + 0
+    if how == "mul":
+        return 2 * f
+    if how == "abs":
+        return abs(f)
+    if how == "rot":
+        return f.rotate90(dims[0], dims[1], k=2)
+    return f.pad({dims[0]: (1, 1)}, mode="constant")
+
+
+def relabel(w, how, dims):
+    """change the labels / the mapping of w through the public setters only"""
+    labels = list(w.vdims)
+    if how == "vdims_perm":
+        w.vdims = labels[1:] + labels[:1]
+    elif how == "vdims_new":
+        w.vdims = [f"k{j}q" for j in range(len(labels))]
+    else:
+        tgt = list(dims) + ["nope"]
+        w.vdim_mapping = {l: tgt[(j + 1) % len(tgt)] for j, l in enumerate(labels)}
+
+
+def derived_relabel_check(f, op, dims, res, st, before, choices):
+    """derive a field, relabel / re-map the DERIVED field, then the ORIGINAL must be what it was and
+    the operator on it must give what it gave.  -> list of (derivation, relabelling) that broke it"""
+    broken = []
+    if f.vdims is None:
+        return broken
+    for how, rl in choices:
+        stw, w = attempt(lambda: derive(f, how, dims))
+        if stw != "ok" or w.vdims is None or w.nvdim != f.nvdim:
+            continue
+        attempt(lambda: relabel(w, rl, dims))
+        same = snap_equal(before, snapshot(f))
+        st4, res4 = attempt(lambda: get_op(f, op))
+        if not same or st4 != st or (st == "ok" and not results_equal(res, res4)):
+            broken.append(f"{how}/{rl}")
+            break           # the original is spoilt from here on
+    return broken
+
+
 def apply_pre(f, c, dims):
     """'used, then changed in place': use the objects first, then transform them through public
     in-place calls.  -> list of steps that raised (they are simply not part of the history)"""
@@ -685,6 +738,19 @@ def hardening_cases(rng, tier):
             for _ in range(3 if q else 25):
                 out.append(rotper_case(rng, tier, op, k))
     out += bcname_cases(rng, tier)
+    # derive, relabel the derived field through the setters, then the operator on the original:
+    # vector fields with permuted (non-positional) mappings, every derivation x relabelling
+    for op in OPS:
+        for _ in range(8 if q else 60):
+            while True:
+                base = fitting_case(rng, tier, op=op)
+                if base["nvdim"] > 1 and (base["mapclass"] == "permutation" or op == "laplace"):
+                    break
+            base = dict(base)
+            base["stream"] = "derived"
+            base.pop("poly", None)
+            base.pop("polydeg", None)
+            out.append(base)
     for _ in range(110 if q else 1100):
         base = fitting_case(rng, tier)
         if rng.random() < 0.2:
@@ -870,6 +936,20 @@ def run_case(c):
                 flag("call-on-other-field-leaks-state")
             if not snap_equal(before, snapshot(f)):
                 flag("operand-changed-by-call")
+    # relabelling a DERIVED field must not reach the original
+    if f.vdims is not None and len(dims) >= 1:
+        if c.get("stream") == "derived":
+            hh = hash(tuple(c["vals"][:5]))
+            choices = [(h_, RELABELS[(hh + j) % 3]) for j, h_ in enumerate(DERIVATIONS) if not (h_ == "rot" and nd < 2)]
+        else:
+            hh = hash(tuple(c["vals"][:5]))
+            hows = [h_ for h_ in DERIVATIONS if not (h_ == "rot" and nd < 2)]
+            choices = [(hows[hh % len(hows)], RELABELS[(hh // 11) % 3])]
+        broken = derived_relabel_check(f, op, dims, res if st == "ok" else None, st, before, choices)
+        if broken:
+            flag("operand-changed-through-derived-field")
+            rec.setdefault("meta", {})["derived_broken"] = broken
+        rec.setdefault("meta", {})["derived_checked"] = len(choices)
     must_refuse = should_refuse(op, nd, nv, f, dims)
     fully_valid = bool(np.all(f.valid))
     bij = mapping_is_bijection(f, dims) if nv > 1 or (nv == 1 and f.vdims) else False
